@@ -16,3 +16,7 @@ THEOREMS = {
     'C07': ['BB.Props.C07.' + n for n in ('hi_range', 'lo_range', 'hi_lo_sum', 'hi_lo_sum_exact', 'utype_accepts_hi',
                                           'itype_accepts_lo', 'stype_accepts_lo', 'pair_rebuilds')],
 }
+
+# evidence level written by each check (must match MANIFEST level_claimed.category)
+LEVEL = {p: 'proof' for p in ('C01', 'C02', 'C03', 'C06', 'C07', 'C08', 'C09')}
+LEVEL.update({p: 'exploration' for p in ('C04', 'C05', 'C12', 'C20')})
